@@ -11,17 +11,23 @@ LEAN_TARGETS = ["Asynkit.Props.C16", "Asynkit.Lemmas.GenEqC16"]
 PROPS_FILES = ["Asynkit/Props/C16.lean", "Asynkit/Lemmas/GenEqC16.lean"]
 DRIVERS = ["Timeout"]
 TRUSTED = [
-    "Lean 4.33 kernel; axioms ⊆ {propext, Classical.choice, Quot.sound} (audited per theorem each run)",
-    "hand-written model Asynkit/Model/Timeout.lean of task_timeout (per level: is_active, my_interrupt identity, "
-    "timer handle, interruptor with its 3-try loop, the `err is not my_interrupt` test, the finally clause), tied "
-    "to the code by trace acceptance (lean/Drivers/Timeout.lean replays every real event trace of this run)",
+    'Lean 4.33 kernel; axioms ⊆ {propext, Classical.choice, Quot.sound} (audited per theorem each run)',
+    'translated, not trusted: task_timeout (enter, exit normally, exit by exception = one level of the unwinding '
+    'with the `err is not my_interrupt` test and the finally clause, trigger_timeout, the six interruptor '
+    'segments of the three-try loop) is re-translated from the source on every run (translator/timeout2lean.py ->'
+    ' Gen/Timeout.lean) and proved equal to the enter/exitOk/exitOther/raise/fire/istep transitions of '
+    'Asynkit/Model/Timeout.lean (Lemmas/GenEqC16.lean, 29 theorems)',
+    'hand-written: Model/TimeoutPrims.lean (what call_later, create_task, `await task_interrupt` '
+    'accepted/refused, sleep(0), call_exception_handler and asynccontextmanager mean on the model state); trace '
+    'acceptance (lean/Drivers/Timeout.lean replays every real event trace of this run) still ties the whole '
+    'transition system to the code',
     "PARTIAL with respect to real time and the selector: a virtual clock replaces loop.time() and the harness's "
-    "_run_once jumps it to the next timer; what is modelled and proved is the logic that reacts to timer events "
-    "(timer callback, interruptor task, task_interrupt accepted/refused, exception unwinding through the levels), "
-    "not wall-clock behaviour",
-    "modelled, not verified: asyncio call_later/_run_once (a cancelled timer handle never runs; timers due in the "
-    "same iteration run in heap order), Task.__step delivery of a thrown exception at the current await, "
-    "task_throw/task_interrupt accept-or-refuse behaviour (property C15), contextlib.asynccontextmanager",
+    '_run_once jumps it to the next timer; what is modelled and proved is the logic that reacts to timer events '
+    '(timer callback, interruptor task, task_interrupt accepted/refused, exception unwinding through the levels),'
+    ' not wall-clock behaviour',
+    'modelled, not verified: asyncio call_later/_run_once (a cancelled timer handle never runs; timers due in the'
+    ' same iteration run in heap order), Task.__step delivery of a thrown exception at the current await, '
+    'task_throw/task_interrupt accept-or-refuse behaviour (property C15), contextlib.asynccontextmanager',
 ]
 ASSUMPTIONS = [
     "the target is a Python task (create_pytask); bodies are sequences of sleep(0)/sleep(k)/await other task and "
